@@ -152,3 +152,14 @@ claim('C15',
       'Bounded: 5 shape pairs <= 5 atoms, charges -1..1, orders {1,2,3}; role counts 0..2 (quick) / 0..3; 3 (6) reactions for '
       'the renumbering clause (permutations realised by the solver).',
       'symbolic execution of the real compose / signature code with z3 (minisym)', 'DESIGN.md §4 C15')
+claim('C05',
+      'Every random-order spelling (random() symbolic) of aromatic / aromatisable seeds, written from the aromatic and from the '
+      'Kekule form, is read back and converted: the Kekule result has only orders 1-3, known hydrogens and no valence error, '
+      'the same atoms / charges / radicals / hydrogens / connectivity / formula as the seed under the written correspondence; '
+      'thiele() gives the same aromatic string for every spelling; both conversions are idempotent; every enumerated Kekule '
+      'form is valid and aromatises to the same form. Ring templates with every position solver-enumerated are kekulised '
+      'exactly when a perfect matching of the double-bond acceptors exists (nitrogen may become pyrrole-like).',
+      'Bounded: 16 seeds (30 thorough), 5- and 6-membered templates over a 5- resp. 4-letter alphabet; unsaturated four-rings '
+      'and > 3 fused rings outside; relational oracle plus my matching model.',
+      'symbolic execution of the real writer / reader / kekule / thiele with z3-decided write orders (minisym)',
+      'DESIGN.md §4 C05')
